@@ -21,6 +21,7 @@ CONSTANTS
   Weak_ReadIgnoresAuthError = FALSE
   Weak_VerifyWrongKey = FALSE
   Weak_NonceAfterTransportWrite = FALSE
+  Weak_AuthSkipsVerifyForOtherKeyTypes = FALSE
 INIT Init
 NEXT Next
 INVARIANTS AuthenticatedExceptSelf NonceFresh PrefixExact TamperFails DeliveredExact LowOrderRefused
